@@ -330,3 +330,162 @@ def first_diff(a, b):
         if k not in a or k not in b or not same_value(a[k], b[k]):
             return k, a.get(k, '<missing>'), b.get(k, '<missing>')
     return None
+
+
+# ------------------------------------------------------------------ read-only queries (histories before an export / identifier read)
+# Every public method of the class that is not a constructor route (from_*, guess), an in-place conversion (convert*), a plot
+# (plot, print_info) or an export that needs a target (to_xl, to_db) is a read-only query; so is every public property.
+# The methods are DISCOVERED on the class (a new query method is picked up and called without arguments); the table below only
+# supplies argument choices for the methods that need some.
+QUERY_EXCLUDE = ('convert', 'from_', 'guess', 'plot', 'print_info', 'to_xl', 'to_db')
+
+
+def query_names(iso):
+    cls = type(iso)
+    meths, props = [], []
+    for n in sorted(dir(cls)):
+        if n.startswith('_') or n.startswith(QUERY_EXCLUDE):
+            continue
+        a = getattr(cls, n, None)
+        if isinstance(a, property):
+            props.append(n)
+        elif callable(a):
+            meths.append(n)
+    return meths, props
+
+
+def _unit_kwargs(iso, rnd, pressure=True, loading=True):
+    """optional unit arguments of a query (the value is RETURNED in another unit; the isotherm must stay as it is)"""
+    kw = {}
+    if pressure and rnd.random() < 0.35:
+        if iso.pressure_mode == 'absolute':
+            kw.update(rnd.choice([{'pressure_unit': 'Pa'}, {'pressure_unit': 'kPa'}, {'pressure_mode': 'relative'}, {'pressure_mode': 'relative%'}]))
+        else:
+            kw.update(rnd.choice([{'pressure_mode': 'absolute', 'pressure_unit': 'bar'}, {'pressure_mode': 'relative%' if iso.pressure_mode == 'relative' else 'relative'}]))
+    if loading and rnd.random() < 0.35:
+        kw.update(rnd.choice([{'loading_unit': 'mol'} if iso.loading_basis == 'molar' else {'loading_basis': 'molar', 'loading_unit': 'mmol'},
+                              {'loading_basis': 'mass', 'loading_unit': 'g'}, {'material_unit': 'kg'} if iso.material_basis == 'mass' else
+                              {'material_basis': 'mass', 'material_unit': 'g'}]))
+    return kw
+
+
+def one_query(iso, name, rnd):
+    """call one discovered query with drawn arguments -> short description; exceptions of the query are not our business"""
+    import pygaps
+    point = isinstance(iso, pygaps.PointIsotherm)
+    model = isinstance(iso, pygaps.ModelIsotherm)
+    have = ['ads', 'des']
+    if point:
+        try:      # the branches that hold points (read from the table, not through the isotherm)
+            marks = [is_des(b) for b in iso.data_raw['branch']]
+            have = [b for b, m in (('ads', False), ('des', True)) if m in marks] or have
+        except Exception:  # noqa
+            pass
+
+    def a_branch():
+        return rnd.choice(have) if rnd.random() < 0.85 else rnd.choice(['ads', 'des'])
+    br = rnd.choice([None, a_branch(), a_branch()])
+    args, kw = (), {}
+    try:
+        if point:
+            ps = [float(x) for x in iso.data_raw[iso.pressure_key]]
+            ls = [float(x) for x in iso.data_raw[iso.loading_key]]
+        elif model:
+            ps = [float(x) for x in iso.model.pressure_range]
+            ls = [float(x) for x in iso.model.loading_range]
+        else:
+            ps = ls = [1.0]
+        lo_p, hi_p, lo_l, hi_l = min(ps), max(ps), min(ls), max(ls)
+    except Exception:  # noqa
+        lo_p, hi_p, lo_l, hi_l = 0.1, 1.0, 0.1, 1.0
+
+    def inside(lo, hi, below=0.08):
+        r = rnd.random()
+        x = lo + (hi - lo) * rnd.random()
+        return lo * 0.5 if r < below else x        # below the first point (extrapolation region) or inside the range
+    if name == 'pressure' or name == 'loading':
+        kw = _unit_kwargs(iso, rnd, pressure=(name == 'pressure'), loading=(name == 'loading'))
+        if rnd.random() < 0.6:
+            kw['branch'] = br
+        if rnd.random() < 0.3:
+            kw['limits'] = (lo_p, hi_p) if name == 'pressure' else (lo_l, hi_l)
+        if rnd.random() < 0.3:
+            kw['indexed'] = True
+        if model:
+            kw['points'] = rnd.choice([3, 5])
+            if name == 'loading' and iso.model.calculates != 'loading' or name == 'pressure' and iso.model.calculates == 'loading':
+                pass
+    elif name in ('data', 'has_branch'):
+        args = (rnd.choice(['ads', 'des']),) if name == 'has_branch' else ()
+        if name == 'data' and rnd.random() < 0.6:
+            kw['branch'] = br
+    elif name == 'other_data':
+        keys = list(getattr(iso, 'other_keys', []) or [])
+        args = (rnd.choice(keys) if keys else 'enthalpy',)
+        if rnd.random() < 0.5:
+            kw['branch'] = br
+    elif name == 'loading_at':
+        x = inside(lo_p, hi_p)
+        args = (rnd.choice([x, [x], [x, inside(lo_p, hi_p)]]),)
+        kw = _unit_kwargs(iso, rnd) if rnd.random() < 0.5 else {}
+        if point:
+            kw['branch'] = a_branch()
+            if rnd.random() < 0.3:
+                kw['interpolation_type'] = rnd.choice(['slinear', 'nearest', 'quadratic'])
+            if rnd.random() < 0.3:
+                kw['interp_fill'] = rnd.choice([0.0, 'extrapolate', (0.0, 1.0)])
+    elif name == 'pressure_at':
+        x = inside(lo_l, hi_l)
+        args = (rnd.choice([x, [x], [x, inside(lo_l, hi_l)]]),)
+        kw = _unit_kwargs(iso, rnd) if rnd.random() < 0.5 else {}
+        if point:
+            kw['branch'] = a_branch()
+            if rnd.random() < 0.3:
+                kw['interp_fill'] = rnd.choice([0.0, 'extrapolate'])
+    elif name == 'spreading_pressure_at':
+        x = inside(lo_p, hi_p, 0.3)
+        args = (rnd.choice([x, x, x, x, [x], [x, inside(lo_p, hi_p)]]),)
+        kw = _unit_kwargs(iso, rnd, loading=point) if rnd.random() < 0.4 else {}
+        if point:
+            kw['branch'] = a_branch()
+            if rnd.random() < 0.2:
+                kw['interp_fill'] = 0.0
+    elif name in ('to_json', 'to_csv', 'to_aif', 'to_dict'):
+        pass
+    what = '%s(%s)' % (name, ', '.join([repr(a)[:40] for a in args] + ['%s=%r' % kv for kv in kw.items()]))
+    import warnings
+    with warnings.catch_warnings():
+        warnings.simplefilter('ignore')
+        try:
+            getattr(iso, name)(*args, **kw)
+        except Exception as e:  # noqa
+            what += ' -> ' + type(e).__name__
+    return what
+
+
+def run_queries(iso, rnd, n=None, slow_ok=True):
+    """a random history of read-only queries on a live isotherm -> list of descriptions"""
+    import pygaps
+    meths, props = query_names(iso)
+    if isinstance(iso, pygaps.ModelIsotherm) and not slow_ok:
+        meths = [m for m in meths if m not in ('pressure_at', 'loading_at', 'spreading_pressure_at')]
+    extra = ['str', 'repr', 'eq', 'in']
+    pool = meths * 3 + props + extra
+    out = []
+    for _ in range(n if n is not None else rnd.randint(1, 6)):
+        name = rnd.choice(pool)
+        if name in extra:
+            try:
+                {'str': lambda: str(iso), 'repr': lambda: repr(iso), 'eq': lambda: iso == iso, 'in': lambda: iso in [iso]}[name]()
+            except Exception:  # noqa
+                pass
+            out.append(name)
+        elif name in props:
+            try:
+                getattr(iso, name)
+            except Exception:  # noqa
+                pass
+            out.append('.' + name)
+        else:
+            out.append(one_query(iso, name, rnd))
+    return out
